@@ -1,6 +1,153 @@
-(* Props/C19.v — TEMPORARY placeholder while the proofs are being written *)
-From Coq Require Import List.
-From Knee Require Import Num Model.Scores.
-Theorem C19_rmse_is_sqrt_mse : forall (N : Num) dist s kp ex, @rmse N dist s kp ex = sqrt (@mse N dist s kp ex).
-Proof. exact (fun N dist s kp ex => eq_refl). Qed.
+(* Props/C19.v — property C19: knee-evaluation scores obey their accounting identities.
+   Only statements, each closed by `exact`, with its assumptions printed.
+   cm_core n xs kxs exs t is evaluation.cm on a curve of n points with x column xs, knee x's kxs = points[knees][:,0]
+   and expected x's exs; the nearest-neighbour search of the error scores sees the oracle dist i j =
+   np.linalg.norm(b - a[i], axis=1)[j] (universally quantified in the Tier-S theorems). *)
+From Coq Require Import Reals ZArith List Arith Bool PrimFloat.
+From Knee Require Import Num NumFloat NumR NpList Model.Scores Proofs.NpSumR Proofs.ScoresFacts Proofs.ScoresReal Proofs.ScoresPerfect.
+Import ListNotations.
+
+(* ---- cm_identities.  Tier S (every Num: any rounding, NaN, any tolerance, any inputs with at least one knee):
+   TP + FN = |E|, TP + FP = |K|, the entries sum to n *)
+Theorem C19_cm_identities : forall (N : Num) n (xs kxs exs : list (T N)) t,
+  kxs <> [] ->
+  let r := cm_core n xs kxs exs t in
+  c_tp r + c_fn r = length exs /\ c_tp r + c_fp r = length kxs /\
+  (Z.of_nat (c_tp r) + Z.of_nat (c_fp r) + Z.of_nat (c_fn r) + c_tn r = Z.of_nat n)%Z.
+Proof. exact @cm_identities. Qed.
+Print Assumptions C19_cm_identities.
+
+(* ---- cm_is_greedy.  Tier S: the matching behind TP is the stated greedy matching (each expected point, in order,
+   claims its nearest knee in x if within the tolerance and still unclaimed) ... *)
+Theorem C19_cm_is_greedy : forall (N : Num) n (xs kxs exs : list (T N)) t,
+  let r := cm_core n xs kxs exs t in
+  c_match r = greedy_spec kxs (cm_dx xs) t exs 0 [] /\ c_tp r = length (c_match r).
+Proof. exact @cm_is_greedy. Qed.
+Print Assumptions C19_cm_is_greedy.
+
+(* ... and, loop-free: it is one-to-one, TP = |M|, FN = |E| - |M|, and (j, k) is in M iff k is the nearest knee of
+   expected point j (first arg-min of |kx - px|/dx), within the tolerance (`<=`), and not matched to an earlier j' *)
+Theorem C19_cm_matching_char : forall (N : Num) n (xs kxs exs : list (T N)) t,
+  let r := cm_core n xs kxs exs t in
+  let dx := cm_dx xs in
+  NoDup (map fst (c_match r)) /\ NoDup (map snd (c_match r)) /\
+  c_tp r = length (c_match r) /\ c_fn r = length exs - length (c_match r) /\
+  forall j k, In (j, k) (c_match r) <->
+    (j < length exs /\ k = cand kxs dx exs j /\ within kxs dx t exs j = true /\
+     forall j', j' < j -> ~ In (j', k) (c_match r)).
+Proof. exact @cm_matching_char. Qed.
+Print Assumptions C19_cm_matching_char.
+
+(* ---- the error scores.  Tier S (definitional refinement, every neighbour oracle): each score is the mean
+   per-coordinate nearest-neighbour error from the side the strategy selects *)
+Theorem C19_mae_spec : forall (N : Num) dist s (kp ex : list (@point N)),
+  mae dist s kp ex = mean_err_spec dist l1_term (fst (sides s kp ex)) (snd (sides s kp ex)).
+Proof. exact @mae_spec. Qed.
+Print Assumptions C19_mae_spec.
+Theorem C19_mse_spec : forall (N : Num) dist s (kp ex : list (@point N)),
+  mse dist s kp ex = mean_err_spec dist l2_term (fst (sides s kp ex)) (snd (sides s kp ex)).
+Proof. exact @mse_spec. Qed.
+Print Assumptions C19_mse_spec.
+Theorem C19_rmspe_spec : forall (N : Num) dist s (kp ex : list (@point N)),
+  rmspe dist s kp ex = rmspe_spec dist (fst (sides s kp ex)) (snd (sides s kp ex)).
+Proof. exact @rmspe_is_spec. Qed.
+Print Assumptions C19_rmspe_spec.
+Theorem C19_rmse_is_sqrt_mse : forall (N : Num) dist s (kp ex : list (@point N)),
+  rmse dist s kp ex = sqrt (mse dist s kp ex).
+Proof. exact @rmse_is_sqrt_mse. Qed.
 Print Assumptions C19_rmse_is_sqrt_mse.
+(* the side: knees / expected / the smaller side / the larger side, the expected points on ties *)
+Theorem C19_sides_spec : forall (A : Type) (s : strategy) (kp ex : list A),
+  let a := fst (sides s kp ex) in let b := snd (sides s kp ex) in
+  ((a, b) = (kp, ex) \/ (a, b) = (ex, kp)) /\
+  match s with
+  | SKnees => a = kp
+  | SExpected => a = ex
+  | SBest => length a = Nat.min (length kp) (length ex) /\ (length kp = length ex -> a = ex)
+  | SWorst => length a = Nat.max (length kp) (length ex) /\ (length kp = length ex -> a = ex)
+  end.
+Proof. exact @sides_spec. Qed.
+Print Assumptions C19_sides_spec.
+
+(* ---- Tier A (RNum).  Signs, for every neighbour oracle *)
+Theorem C19_scores_nonneg : forall (dist : nat -> nat -> R) s (kp ex : list (@point RNum)),
+  kp <> [] -> ex <> [] ->
+  (0 <= @mae RNum dist s kp ex /\ 0 <= @mse RNum dist s kp ex /\ 0 <= @rmse RNum dist s kp ex /\ 0 <= @rmspe RNum dist s kp ex)%R.
+Proof.
+  exact (fun dist s kp ex Hk He => conj (mae_nonneg dist s kp ex Hk He) (conj (mse_nonneg dist s kp ex Hk He)
+           (conj (rmse_nonneg dist s kp ex) (rmspe_nonneg dist s kp ex)))).
+Qed.
+Print Assumptions C19_scores_nonneg.
+
+(* all four vanish when every point of the iterated side occurs in the searched side (neighbours by Euclidean distance) *)
+Theorem C19_scores_zero_on_exact : forall (s : strategy) (kp ex : list (@point RNum)),
+  let a := fst (sides s kp ex) in let b := snd (sides s kp ex) in
+  (forall p, In p a -> In p b) ->
+  let dist := @dist_closed RNum a b in
+  @mae RNum dist s kp ex = 0%R /\ @mse RNum dist s kp ex = 0%R /\ @rmse RNum dist s kp ex = 0%R /\ @rmspe RNum dist s kp ex = 0%R.
+Proof. exact scores_zero_on_exact. Qed.
+Print Assumptions C19_scores_zero_on_exact.
+(* in particular when E is exactly the knee points (as a set, any order), for every strategy *)
+Theorem C19_scores_zero_when_expected_is_knees : forall (s : strategy) (kp ex : list (@point RNum)),
+  (forall p, In p kp <-> In p ex) ->
+  let dist := @dist_closed RNum (fst (sides s kp ex)) (snd (sides s kp ex)) in
+  @mae RNum dist s kp ex = 0%R /\ @mse RNum dist s kp ex = 0%R /\ @rmse RNum dist s kp ex = 0%R /\ @rmspe RNum dist s kp ex = 0%R.
+Proof. exact scores_zero_when_expected_is_knees. Qed.
+Print Assumptions C19_scores_zero_when_expected_is_knees.
+
+(* ---- Tier A over non-negative integers embedded in R: ranges when the denominator is non-zero *)
+Theorem C19_accuracy_range : forall tp fp fn tn : Z,
+  (0 <= tp)%Z -> (0 <= fp)%Z -> (0 <= fn)%Z -> (0 <= tn)%Z -> (tp + tn + fp + fn <> 0)%Z ->
+  (0 <= @accuracy RNum tp fp fn tn <= 1)%R.
+Proof. exact accuracy_range. Qed.
+Print Assumptions C19_accuracy_range.
+Theorem C19_f1_range : forall tp fp fn : Z,
+  (0 <= tp)%Z -> (0 <= fp)%Z -> (0 <= fn)%Z -> (2 * tp + fp + fn <> 0)%Z ->
+  (0 <= @f1score RNum tp fp fn <= 1)%R.
+Proof. exact f1_range. Qed.
+Print Assumptions C19_f1_range.
+Theorem C19_mcc_range : forall tp fp fn tn : Z,
+  (0 <= tp)%Z -> (0 <= fp)%Z -> (0 <= fn)%Z -> (0 <= tn)%Z -> (0 < (tp + fp) * (tp + fn) * (tn + fp) * (tn + fn))%Z ->
+  (-1 <= @mcc RNum tp fp fn tn <= 1)%R.
+Proof. exact mcc_range. Qed.
+Print Assumptions C19_mcc_range.
+(* the identity behind it *)
+Theorem C19_mcc_identity : forall a b c d : Z,
+  ((a + b) * (a + c) * (d + b) * (d + c) - (a * d - b * c) * (a * d - b * c) =
+   4 * a * b * c * d + (a * d + b * c) * (a * b + c * d + a * c + b * d) + (a * c + b * d) * (a * b + c * d))%Z.
+Proof. exact mcc_identity. Qed.
+Print Assumptions C19_mcc_identity.
+(* all three are 1 on perfect detection (FP = FN = 0, TP > 0; TN > 0 for MCC, whose denominator is 0 otherwise) *)
+Theorem C19_perfect_scores : forall tp tn : Z, (0 < tp)%Z -> (0 <= tn)%Z ->
+  @accuracy RNum tp 0 0 tn = 1%R /\ @f1score RNum tp 0 0 = 1%R /\ ((0 < tn)%Z -> @mcc RNum tp 0 0 tn = 1%R).
+Proof. exact perfect_scores. Qed.
+Print Assumptions C19_perfect_scores.
+
+(* ... and perfect detection is what cm reports when E is exactly the knee points: knee x's pairwise distinct (distinct
+   knees on a curve with strictly increasing x), the expected x's are the same set without repetition (any order),
+   t >= 0, non-degenerate x range  =>  cm = [[|K|, 0], [0, n - |K|]].  Tier A *)
+Theorem C19_cm_perfect : forall n (xs kxs exs : list R) (t : R),
+  kxs <> [] -> NoDup kxs -> NoDup exs -> (forall x, In x exs <-> In x kxs) -> (0 <= t)%R -> (0 < @cm_dx RNum xs)%R ->
+  let r := @cm_core RNum n xs kxs exs t in
+  c_tp r = length kxs /\ c_fp r = 0 /\ c_fn r = 0 /\ c_tn r = (Z.of_nat n - Z.of_nat (length kxs))%Z.
+Proof. exact cm_perfect. Qed.
+Print Assumptions C19_cm_perfect.
+
+(* ---- non-vacuity: concrete instances on binary64 (values as returned by the package) *)
+Definition ex_pts : list (float * float) := [(0, 1); (1, 3); (2, 2); (3, 5); (4, 0x1.6p+2); (6, 9)]%float.
+Definition ex_exp : list (float * float) := [(1, 3); (0x1.8cccccccccccdp+1, 5); (9, 9)]%float.
+Example C19_example_cm :
+  let r := @cm FloatNum ex_pts [1; 3] ex_exp 0x1.999999999999ap-5%float in
+  (c_tp r, c_fp r, c_fn r, c_tn r, c_match r) = (2, 0, 1, 3%Z, [(0, 0); (1, 1)]).
+Proof. vm_compute. reflexivity. Qed.
+(* a duplicate claim: the second expected point nearest to knee 0 is refused *)
+Example C19_example_duplicate :
+  let r := @cm FloatNum ex_pts [1; 3] [(1, 3); (1, 3)]%float 0x1.999999999999ap-5%float in
+  (c_tp r, c_fp r, c_fn r, c_tn r, c_match r) = (1, 1, 1, 3%Z, [(0, 0)]).
+Proof. vm_compute. reflexivity. Qed.
+Example C19_example_scores :
+  let kp := @knee_points FloatNum ex_pts [1; 3] in
+  f_same (@mae FloatNum (@dist_closed FloatNum kp ex_exp) SKnees kp ex_exp) 0x1.99999999999a0p-6%float = true /\
+  f_same (@accuracy FloatNum 2 0 1 3) 0x1.aaaaaaaaaaaabp-1%float = true /\
+  f_same (@mcc FloatNum 2 0 0 4) 1%float = true.
+Proof. vm_compute. auto. Qed.
